@@ -1,6 +1,6 @@
 (* Proofs/DecScript.v -- property C04: composition of the per-mode decoding lemmas along a legal script. *)
 From Coq Require Import Arith NArith List Bool Lia.
-From DM Require Import Generated.ModeTables Generated.Charsets Model.Outcome Model.Dec Spec.Stream16022 Proofs.DecStream Proofs.DecStreamC40.
+From DM Require Import Generated.ModeTables Generated.Charsets Model.Outcome Model.Dec Spec.Stream16022 Proofs.DecStream Proofs.DecStreamC40 Proofs.DecStreamEdi.
 Import ListNotations.
 Local Open Scope N_scope.
 
@@ -43,6 +43,29 @@ Proof.
   destruct (decode_c40_like _ _ _ _ 0 false out) as [[[r' m'] o]| |]; reflexivity.
 Qed.
 
+Lemma loop_edi_unfold f l c out e : l <> [] ->
+  decode_loop (S f) (mkrd l c) Edifact out e =
+  (let* (rm, o) := decode_edifact (S (length l)) (mkrd l c) out in let (r1, m1) := rm in decode_loop f r1 m1 o e).
+Proof.
+  intros NE. destruct l as [|x l]; [congruence|]. cbn [decode_loop rd].
+  destruct (decode_edifact _ _ out) as [[[r' m'] o]| |]; reflexivity.
+Qed.
+
+(* the number of codewords of a rendering does not depend on the position *)
+Lemma segment_cw_length b1 b2 s : length (segment_cw b1 s) = length (segment_cw b2 s).
+Proof. destruct s; cbn [segment_cw length]; rewrite ?rand255_run_length; reflexivity. Qed.
+Lemma render_length segs : forall b1 b2, length (render b1 segs) = length (render b2 segs).
+Proof.
+  induction segs as [|s r IH]; intros b1 b2; cbn [render]; [reflexivity|]. cbv zeta.
+  rewrite !app_length, (segment_cw_length b1 b2 s). f_equal. apply IH.
+Qed.
+Lemma rpad_length b n : length (rpad b n) = n.
+Proof. revert b; induction n as [|n IH]; intros b; cbn [rpad length]; [reflexivity|now rewrite IH]. Qed.
+Lemma pad_length b n : length (pad b n) = n.
+Proof. destruct n; cbn [pad length]; [reflexivity|now rewrite rpad_length]. Qed.
+Lemma tailS_length before r npad : length (tailS before r npad) = rest_len r npad.
+Proof. unfold tailS, rest_len. cbv zeta. rewrite app_length, pad_length, (render_length r before 0). reflexivity. Qed.
+
 Lemma ascii_fuel n : forall n' l c us out e, (length l < n)%nat -> (length l < n')%nat ->
   decode_ascii n (mkrd l c) us out e = decode_ascii n' (mkrd l c) us out e.
 Proof.
@@ -73,7 +96,7 @@ Lemma tailS_head segs : forall npad before, script_ok segs npad = true ->
 Proof.
   induction segs as [|s r IH]; intros npad before OK.
   - unfold tailS. cbn [render app]. destruct npad; cbn [pad]; [exact I|lia].
-  - rewrite tailS_cons. destruct s as [items|bytes|bytes|text chars fill t|chars t]; cbn [script_ok term_of] in OK.
+  - rewrite tailS_cons. destruct s as [items|bytes|bytes|text chars fill t|chars t|chars t]; cbn [script_ok term_of] in OK.
     + rewrite !andb_true_iff in OK. destruct OK as [[Os Or] _].
       cbn [segment_cw]. destruct items as [|i items]; cbn [flat_map app].
       * apply IH. exact Or.
@@ -85,6 +108,7 @@ Proof.
     + cbn [segment_cw app]. lia.
     + cbn [segment_cw app]. lia.
     + cbn [segment_cw app]. destruct text; lia.
+    + cbn [segment_cw app]. lia.
     + cbn [segment_cw app]. lia.
 Qed.
 
@@ -103,7 +127,7 @@ Proof.
   intros OK HE. pose proof (tailS_head r npad before OK) as HD. destruct t.
   - unfold not_unlatch_single. destruct (tailS before r npad) as [|x [|y l]]; auto. lia.
   - unfold ends_symbol in HE. apply andb_true_iff in HE. destruct HE as [NP HR]. apply Nat.eqb_eq in NP. subst npad.
-    destruct r as [|[items| | | |] [|s2 r2]]; try discriminate.
+    destruct r as [|[items| | | | |] [|s2 r2]]; try discriminate.
     + unfold tailS. cbn. exact I.
     + destruct items as [|i [|i2 it]]; try discriminate. apply andb_true_iff in HR. destruct HR as [Oi Si].
       destruct (single_item_tail i Oi Si) as (x & E & NX).
@@ -123,7 +147,7 @@ Proof.
     + cbn [decode_ascii rd cnt andb]. change ((1 <=? 129) && (129 <=? 128)) with false. cbn [negb andb].
       change (129 =? ascii_PAD) with true. cbv iota. rewrite check_padding_rpad. reflexivity.
   - rewrite tailS_cons in *. unfold meaning. cbn [flat_map]. fold (meaning r). rewrite app_assoc.
-    destruct s as [items|bytes|bytes|text chars fill t|chars t].
+    destruct s as [items|bytes|bytes|text chars fill t|chars t|chars t].
     + (* ASCII segment *)
       cbn [script_ok term_of] in OK. rewrite !andb_true_iff in OK. destruct OK as [[Os Or] _]. cbn [segment_ok] in Os.
       cbn [segment_cw segment_data] in *. rewrite ascii_items by (try exact Os; exact Hn).
@@ -189,7 +213,7 @@ Proof.
         apply Nat.eqb_eq in NP. subst npad.
         destruct r as [|s2 r2].
         - destruct text; cbn; now rewrite !app_nil_r.
-        - exfalso. destruct s2 as [items| | | |]; try discriminate. destruct items as [|i [|i2 it]]; try discriminate.
+        - exfalso. destruct s2 as [items| | | | |]; try discriminate. destruct items as [|i [|i2 it]]; try discriminate.
           destruct r2; [|discriminate]. apply andb_true_iff in HR. destruct HR as [Oi Si].
           destruct (single_item_tail i Oi Si) as (x & E & _). unfold tl, tailS in ET. cbn [render segment_cw flat_map app] in ET.
           rewrite E in ET. discriminate. }
@@ -224,7 +248,7 @@ Proof.
         apply Nat.eqb_eq in NP. subst npad.
         destruct r as [|s2 r2].
         - cbn. now rewrite !app_nil_r.
-        - exfalso. destruct s2 as [items| | | |]; try discriminate. destruct items as [|i [|i2 it]]; try discriminate.
+        - exfalso. destruct s2 as [items| | | | |]; try discriminate. destruct items as [|i [|i2 it]]; try discriminate.
           destruct r2; [|discriminate]. apply andb_true_iff in HR. destruct HR as [Oi Si].
           destruct (single_item_tail i Oi Si) as (x & E & _). unfold tl, tailS in ET. cbn [render segment_cw flat_map app] in ET.
           rewrite E in ET. discriminate. }
@@ -233,6 +257,47 @@ Proof.
       destruct (x12_segment chars t tl OX M HT (before + 1) out (S (length (pack_vals (map x12_v chars) ++ term_cw t ++ tl))) ltac:(lia))
         as (r' & DX & AB).
       rewrite DX. cbn [bind]. rewrite AB. fold body.
+      replace (before + 1 + N.of_nat (length body)) with (before + N.of_nat (S (length body))) by lia.
+      assert (1 <= length (body ++ tl))%nat as L1 by (destruct (body ++ tl); [congruence|cbn; lia]).
+      rewrite !app_length in Hn, Hf, L1.
+      destruct f as [|f]; [lia|]. rewrite loop_ascii_B by lia.
+      unfold tl in *. apply IH; [exact Or|lia|lia].
+    + (* EDIFACT run *)
+      cbn [script_ok] in OK. rewrite !andb_true_iff in OK. destruct OK as [[Os Or] OT].
+      cbn [segment_ok] in Os. apply andb_true_iff in Os. destruct Os as [OE M].
+      cbn [segment_cw segment_data] in *. cbn [app length] in Hn, Hf.
+      set (body := pack_edi (edi_vals chars t)) in *. cbn [app length].
+      set (tl := tailS (before + N.of_nat (S (length body))) r npad) in *.
+      assert (edi_tail_ok t (length chars) tl) as HT.
+      { unfold edi_tail_ok, tl. rewrite tailS_length. destruct t.
+        - apply Nat.leb_le in OT. exact OT.
+        - unfold ends_symbol2 in OT. apply andb_true_iff in OT. destruct OT as [NP HR]. apply Nat.eqb_eq in NP. subst npad.
+          unfold rest_len. rewrite Nat.add_0_r. destruct r as [|[items| | | | |] [|s2 r2]]; try discriminate.
+          * cbn. lia.
+          * apply andb_true_iff in HR. destruct HR as [_ HL]. apply Nat.leb_le in HL.
+            cbn [render segment_cw]. cbv zeta. rewrite app_nil_r. exact HL. }
+      assert (decode_ascii n (mkrd (240 :: body ++ tl) before) false out [] =
+              Ok (mkrd (body ++ tl) (before + 1), Edifact, out, [])) as ->.
+      { destruct n as [|n]; [lia|]. reflexivity. }
+      cbn [bind cont]. destruct f as [|f]; [lia|].
+      assert (body ++ tl = [] \/ body ++ tl <> []) as [EB|NEB] by (destruct (body ++ tl); [left; reflexivity|right; discriminate]).
+      { rewrite EB. apply app_eq_nil in EB. destruct EB as [EP ET]. unfold body in EP. apply pack_edi_nil in EP.
+        destruct EP as [-> ->]. unfold ends_symbol2 in OT. apply andb_true_iff in OT. destruct OT as [NP HR].
+        apply Nat.eqb_eq in NP. subst npad.
+        destruct r as [|s2 r2].
+        - cbn. now rewrite !app_nil_r.
+        - assert (length tl = 0)%nat as L0 by (rewrite ET; reflexivity). unfold tl in L0. rewrite tailS_length in L0.
+          unfold rest_len in L0. rewrite Nat.add_0_r in L0.
+          destruct s2 as [items| | | | |]; try discriminate. destruct r2; [|destruct items; discriminate].
+          cbn [render segment_cw] in L0. cbv zeta in L0. rewrite app_nil_r in L0.
+          assert (items = []) as -> by (destruct items as [|[b|d1 d2|b] it]; [reflexivity|cbn in L0; lia..]).
+          cbn. now rewrite !app_nil_r. }
+      rewrite loop_edi_unfold by exact NEB.
+      pose proof (pack_edi_len chars t) as PL. fold body in PL.
+      unfold body.
+      rewrite (edi_segment chars t tl (S (length (pack_edi (edi_vals chars t) ++ tl))) (before + 1) out OE
+                 ltac:(destruct t; [exact I|apply N.eqb_eq; exact M]) HT ltac:(rewrite app_length; fold body; lia)).
+      cbn [bind]. fold body.
       replace (before + 1 + N.of_nat (length body)) with (before + N.of_nat (S (length body))) by lia.
       assert (1 <= length (body ++ tl))%nat as L1 by (destruct (body ++ tl); [congruence|cbn; lia]).
       rewrite !app_length in Hn, Hf, L1.
@@ -263,4 +328,42 @@ Proof.
   rewrite loop_ascii_B by lia. unfold data.
   rewrite (script_main segs npad OK 0 [] (2 * length (tailS 0 segs npad) + 1) (S (length (tailS 0 segs npad)))) by lia.
   reflexivity.
+Qed.
+
+(* ---------- Macro 05/06 and FNC1 in first position ---------- *)
+Definition stream_with (prefix : N) (segs : list segment) (npad : nat) : list N := prefix :: tailS 1 segs npad.
+
+Lemma loop_from_1 segs npad out : script_ok segs npad = true ->
+  decode_loop (2 * length (tailS 1 segs npad) + 2) (mkrd (tailS 1 segs npad) 1) Ascii out [] = Ok (out ++ meaning segs, []).
+Proof.
+  intros OK. replace (2 * length (tailS 1 segs npad) + 2)%nat with (S (2 * length (tailS 1 segs npad) + 1)) by lia.
+  rewrite loop_ascii_B by lia.
+  exact (script_main segs npad OK 1 out (2 * length (tailS 1 segs npad) + 1) (S (length (tailS 1 segs npad))) ltac:(lia) ltac:(lia)).
+Qed.
+
+Theorem decode_script_macro segs npad m head : (m = MACRO05 /\ head = MACRO05_HEAD) \/ (m = MACRO06 /\ head = MACRO06_HEAD) ->
+  script_ok segs npad = true -> decode_data (stream_with m segs npad) = Ok (head ++ meaning segs ++ MACRO_TRAIL).
+Proof.
+  intros HM OK. unfold stream_with, decode_data, decode_parts.
+  assert ((if m =? MACRO05 then (mkrd (tailS 1 segs npad) 1, MACRO05_HEAD, true)
+           else if m =? MACRO06 then (mkrd (tailS 1 segs npad) 1, MACRO06_HEAD, true)
+           else (mkrd (m :: tailS 1 segs npad) 0, [], false)) = (mkrd (tailS 1 segs npad) 1, head, true)) as ->.
+  { destruct HM as [[-> ->]|[-> ->]]; reflexivity. }
+  cbn [negb andb rd cnt].
+  pose proof (tailS_head segs npad 1 OK) as HD.
+  assert ((match tailS 1 segs npad with
+           | c :: t => if c =? ascii_FNC1 then (mkrd t (1 + 1), true) else (mkrd (tailS 1 segs npad) 1, false)
+           | [] => (mkrd (tailS 1 segs npad) 1, false) end) = (mkrd (tailS 1 segs npad) 1, false)) as ->.
+  { destruct (tailS 1 segs npad) as [|c t]; [reflexivity|]. destruct HD as (_ & _ & C & _).
+    replace (c =? ascii_FNC1) with false by (symmetry; apply N.eqb_neq; exact C). reflexivity. }
+  cbn [rd]. rewrite (loop_from_1 segs npad head OK). cbn [bind p_eci_spans p_output]. now rewrite app_assoc.
+Qed.
+
+Theorem decode_script_fnc1 segs npad : script_ok segs npad = true ->
+  decode_data (stream_with ascii_FNC1 segs npad) = Ok (meaning segs).
+Proof.
+  intros OK. unfold stream_with, decode_data, decode_parts.
+  change (ascii_FNC1 =? MACRO05) with false. change (ascii_FNC1 =? MACRO06) with false. cbv iota.
+  cbn [negb andb rd cnt]. change (ascii_FNC1 =? ascii_FNC1) with true. cbv iota. cbn [rd N.add].
+  rewrite (loop_from_1 segs npad [] OK). reflexivity.
 Qed.
